@@ -3,8 +3,9 @@
 //
 //	C07 q <timeout_ms> <dgrams>       responder sends the datagrams in order, then stays silent
 //	C07 flood <timeout_ms> <dgram>    responder repeats one datagram until the query returns
+//	C07 dp <timeout_ms> <dgrams>      the real details prober against the same responder (dp.go)
 //
-// output: resp <ver> <fields> <players> <objectives> | err:incomplete | err:malformed | timeout |
+// output (q, flood): resp <ver> <fields> <players> <objectives> | err:incomplete | err:malformed | timeout |
 // err:other:<text> | panic:<text>, followed by `late` if Query outlived timeout+slack.
 package c07
 
@@ -41,6 +42,8 @@ func exec(op string, args []string) []string {
 			return []string{"bad-op"}
 		}
 		return u.RunQuery(ds, time.Duration(ms)*time.Millisecond, true)
+	case "dp":
+		return runProbe(ds, time.Duration(ms)*time.Millisecond)
 	}
 	return []string{"bad-op"}
 }
